@@ -6,6 +6,3 @@ import "io"
 
 // VerifHandleConnection runs the real per-connection handler synchronously (C17 harness).
 func (h *BaseMappingHandler) VerifHandleConnection(c io.ReadWriteCloser) { h.handleConnection(c) }
-
-// VerifActiveConnCount reads the per-mapping slot counter.
-func (h *BaseMappingHandler) VerifActiveConnCount() int { return int(h.activeConnCount.Load()) }
